@@ -2452,6 +2452,11 @@ namespace xsimd
                 auto inf_result = (a == constants::infinity<B>());
                 x = select(inf_result, B(2.), x);
 #endif
+                // beyond the overflow threshold the result is +inf: do not run the
+                // "x -= 1" reduction below, whose trip count is proportional to x
+                // (and which never ends once x - 1 == x)
+                auto overflow = (a > stirling_kernel<B>::large_limit());
+                x = select(overflow, B(2.), x);
                 B z = B(1.);
                 auto test1 = (x >= B(3.));
                 while (any(test1))
@@ -2475,6 +2480,7 @@ namespace xsimd
                     test2 = (x < B(2.));
                 }
                 x = z * tgamma_kernel<B>::compute(x - B(2.));
+                x = select(overflow, constants::infinity<B>(), x);
 #ifndef XSIMD_NO_INFINITIES
                 return select(inf_result, a, x);
 #else
